@@ -70,7 +70,7 @@ def execute(sc) -> Result:
         account_run(res, runA, sc)
         res.history_key = "|".join(map(str, (sc["frames"]["offsets"], sc["frames"].get("split"),
                                              sorted({r["step"] for r in sc["release"]["rows"]}),
-                                             sc["tracker"].get("advection")))) + "|" + abstract_history(runA)
+                                             sc["tracker"].get("advection")))) + "|" + abstract_history(runA, sc)
         v, foreign = crash_violation(ID, runA, ANCHORS)
         if v is not None:
             res.add(v)
